@@ -17,6 +17,7 @@ for the environment the drivers use), every fuel, and lists of types of any leng
 and depth.
 -/
 import CtyModel.Lemmas.UnifyTyLaws
+import CtyModel.Lemmas.UnifyProps
 namespace CtyModel
 namespace C09
 open Convert Ty Unify
@@ -45,6 +46,279 @@ theorem unifyLaws_std (base : Env) : UnifyLaws (Env.std base) := Unify.unifyLaws
 example : unifyF (Env.std Env.simple) 1 true [.map (.tuple [.string, .bool]), .map (.tuple [.string, .bool])] =
     .ok (some (.map (.tuple [.string, .bool]), [none, none])) :=
   unify_equal_types _ (unifyLaws_std _) 0 true _ _ (by simp) (by simp) (by decide) (by decide)
+
+/-! ## One result type, one conversion slot per input -/
+
+/-- Clause "the result is a single type": `unify` answers NilType with no slice at all, or
+one type together with a slice that has exactly one slot per input type. -/
+theorem single_result (E : Env) (fuel : Nat) (uns : Bool) (types : List Ty) (out : UOut)
+    (h : unifyF E fuel uns types = .ok out) :
+    out = none ∨ ∃ t cs, out = some (t, cs) ∧ slotsOk types cs = true := by
+  cases out with
+  | none => exact .inl rfl
+  | some r =>
+    obtain ⟨t, cs⟩ := r
+    exact .inr ⟨t, cs, rfl, by simp [slotsOk, (unifyF_slots E fuel uns types t cs h).1]⟩
+
+/-- … the slots correspond to the inputs index by index. -/
+theorem convs_length (E : Env) (fuel : Nat) (uns : Bool) (types : List Ty) (t : Ty) (cs : Convs)
+    (h : unifyF E fuel uns types = .ok (some (t, cs))) : cs.length = types.length :=
+  (unifyF_slots E fuel uns types t cs h).1
+
+/-- Every slot `unify` returns is of one of the five forms of `SlotRel`: filled the direct
+way (nil if the input `Equals` the result, else what `GetConversion[Unsafe](input, result)`
+offers), the chosen candidate itself, the constant of unifyAllAsDynamic, or one of the
+two closures of unifyTuplesAsList / unifyObjectsAsMaps.  (All clauses below are read off
+this.) -/
+theorem convs_shape (E : Env) (fuel : Nat) (uns : Bool) (types : List Ty) (t : Ty) (cs : Convs)
+    (h : unifyF E fuel uns types = .ok (some (t, cs))) : SlotsRel E uns t types cs :=
+  unifyF_slots E fuel uns types t cs h
+
+example : unifyF (Env.std Env.simple) 3 false [.tuple [.bool, .string], .list .string] =
+    .ok (some (.list .string, [some (.plan (.wrap (.list .string)
+      (.tupToList [.wrap .string .boolToStr, .nil] false))), none])) := rfl
+
+/-! ## The conversion is absent exactly when the input already equals the result -/
+
+/-- Clause "for placeholder-free inputs the conversion is absent exactly when the input
+already equals the result".  It holds of every input type that is not the placeholder
+ITSELF (nested placeholders are fine; `unifyAllAsDynamic` hands a conversion to a
+DynamicPseudoType input although it equals the result), for well-formed input types,
+either mode, any environment. -/
+theorem nil_iff_equal_partial (E : Env) (fuel : Nat) (uns : Bool) (types : List Ty) (t : Ty) (cs : Convs)
+    (hw : ∀ ty ∈ types, ty.wf = true) (h : unifyF E fuel uns types = .ok (some (t, cs))) :
+    nilIffEqual t types (nilFlags cs) = true :=
+  slots_nilIffEqual hw (unifyF_slots E fuel uns types t cs h)
+
+/-- … slot by slot: for `types[i] ≠ DynamicPseudoType`, `convs[i] == nil ↔ types[i].Equals(result)` -/
+theorem nil_iff_equal_at (E : Env) (fuel : Nat) (uns : Bool) (types : List Ty) (t : Ty) (cs : Convs) (i : Nat)
+    (ty : Ty) (c : Option UConv) (hw : ty.wf = true) (hd : ty.isDyn = false)
+    (h : unifyF E fuel uns types = .ok (some (t, cs))) (hi : types[i]? = some ty) (hc : cs[i]? = some c) :
+    c = none ↔ ty.equals t = true := by
+  obtain ⟨c', hc', hrel⟩ := (unifyF_slots E fuel uns types t cs h).2 i ty hi
+  rw [hc] at hc'; simp only [Option.some.injEq] at hc'; subst hc'
+  have := slotRel_nilIffEqual hw hrel
+  simp only [nilIffEqualAt, hd, Bool.false_or, beq_iff_eq] at this
+  cases c <;> simp_all
+
+/-- the full statement (every input type, the placeholder included) is FALSE of the code -/
+def NilIffEqual : Prop :=
+  ∀ (E : Env) (fuel : Nat) (uns : Bool) (types : List Ty) (t : Ty) (cs : Convs) (i : Nat) (ty : Ty) (c : Option UConv),
+    ty.wf = true → unifyF E fuel uns types = .ok (some (t, cs)) → types[i]? = some ty → cs[i]? = some c →
+    (c = none ↔ ty.equals t = true)
+
+/-- the witness: `Unify([list(string), dynamic])` is DynamicPseudoType and BOTH inputs get a
+conversion, the one that already is DynamicPseudoType included -/
+theorem nil_iff_equal_counterexample :
+    unifyF (Env.std Env.simple) 2 false [.list .string, .dyn] =
+      .ok (some (.dyn, [some .constDyn, some .constDyn])) := rfl
+
+theorem nilIffEqual_false : ¬ NilIffEqual := by
+  intro h
+  have := h (Env.std Env.simple) 2 false [.list .string, .dyn] .dyn _ 1 .dyn (some .constDyn) rfl
+    nil_iff_equal_counterexample rfl rfl
+  simp [equals] at this
+
+example : nilIffEqual (.list .string) [.tuple [.bool, .string], .list .string] [false, true] = true := by decide
+
+/-! ## Safe unification never relies on an unsafe conversion -/
+
+/-- Clause "safe unification never relies on an unsafe conversion": every conversion
+`Unify` (safe mode) returns is built only from plans that `GetConversion` — safe mode,
+`gck … false` — offers (plus the table-free constant of unifyAllAsDynamic). -/
+theorem safe_never_unsafe (E : Env) (fuel : Nat) (types : List Ty) (t : Ty) (cs : Convs) (i : Nat) (c : UConv)
+    (h : unify E fuel types = .ok (some (t, cs))) (hc : cs[i]? = some (some c)) : SafeBuilt E c := by
+  have hs := unifyF_slots E fuel false types t cs h
+  have hi : i < types.length := by rw [← hs.1]; exact (List.getElem?_eq_some_iff.mp hc).1
+  obtain ⟨c', hc', hrel⟩ := hs.2 i types[i] (List.getElem?_eq_getElem hi)
+  rw [hc] at hc'; simp only [Option.some.injEq] at hc'; subst hc'
+  exact slotRel_safeBuilt hrel
+
+/-- … and precisely which: a slot filled the direct way holds exactly the plan
+`GetConversion(types[i], result)` returns. -/
+theorem safe_never_unsafe_direct (E : Env) (fuel : Nat) (types : List Ty) (t ty : Ty) (cs : Convs) (i : Nat) (c : UConv)
+    (h : unify E fuel types = .ok (some (t, cs))) (hi : types[i]? = some ty) (hc : cs[i]? = some (some c))
+    (hk : ((isTupleTy ty && isListTy t) || (isObjectTy ty && isMapTy t)) = false) :
+    (∃ p, c = .plan p ∧ getConversion E ty t = some p) ∨ (t = .dyn ∧ c = .constDyn) := by
+  obtain ⟨c', hc', hrel⟩ := (unifyF_slots E fuel false types t cs h).2 i ty hi
+  rw [hc] at hc'; simp only [Option.some.injEq] at hc'; subst hc'
+  rcases slotRel_plain_kind hk hrel with hd | ⟨_, hn⟩ | ⟨ht, hcd⟩
+  · obtain ⟨_, p, hp, hg⟩ := direct_plan hd
+    exact .inl ⟨p, hp, hg⟩
+  · simp at hn
+  · simp only [Option.some.injEq] at hcd
+    exact .inr ⟨ht, hcd⟩
+
+example : SafeBuilt (Env.std Env.simple) (.plan (.wrap .string .boolToStr)) :=
+  .plan (a := .bool) (b := .string) rfl
+
+/-! ## Each returned conversion yields a value of the unified type -/
+
+/-- Full statement of the clause "each returned conversion applied to any value of its
+input type yields a value of the unified type", for placeholder-free types: FALSE of
+the code — see `convs_yield_unified_counterexample`. -/
+def ConvsYieldUnified : Prop :=
+  ∀ (E : Env) (fuel fuel' : Nat) (uns : Bool) (types : List Ty) (t : Ty) (cs : Convs) (i : Nat) (c : UConv) (v r : Value),
+    UnifyLaws E → (∀ ty ∈ types, plainTy ty = true) → plainTy t = true →
+    unifyF E fuel uns types = .ok (some (t, cs)) → cs[i]? = some (some c) → types[i]? = some v.ty →
+    Value.wt v = true → applyU E fuel' c v = .ok r → r.ty = t
+
+/-- What holds: a slot filled the direct way (it holds what `GetConversion[Unsafe](input,
+result)` offers — every slot except those of tuples among lists and objects among
+maps, see `convs_direct_of_kind`) applied to any well-formed value of its input type —
+known, unknown, null or marked, any depth — returns a value whose type is exactly the
+unified type, or an error; never a value of another type.  Either mode; placeholder-free,
+well-formed result type; reuse of C08.result_type_partial. -/
+theorem convs_yield_unified_partial (E : Env) (hU : UnifyLaws E) (fuel fuel' : Nat) (uns : Bool) (types : List Ty)
+    (t : Ty) (cs : Convs) (i : Nat) (c : UConv) (v r : Value) (ht : plainTy t = true)
+    (_h : unifyF E fuel uns types = .ok (some (t, cs))) (_hc : cs[i]? = some (some c))
+    (hd : slotOf E uns t v.ty = some (some c)) (hv : Value.wt v = true)
+    (ha : applyU E fuel' c v = .ok r) : r.ty = t ∧ yieldsUnified t r = true := by
+  simp only [plainTy, Bool.and_eq_true, Bool.not_eq_true'] at ht
+  obtain ⟨_, p, rfl, hg⟩ := direct_plan hd
+  have hp : RegularPair v t := ⟨hv, ht.1.1, ht.2⟩
+  have hty : r.ty = t := by
+    rw [apply_ty hU hp hg ha, stripOpt_id_of_noOpt t ht.1.2]
+  refine ⟨hty, ?_⟩
+  have hc := conform_stripOpt t ht.1.1 ht.2
+  rw [stripOpt_id_of_noOpt t ht.1.2] at hc
+  simp [yieldsUnified, conformsTo, noOptional, hty, hc, ht.1.2]
+
+/-- which slots are filled the direct way: all those whose input type is not a tuple
+headed for a list type nor an object headed for a map type -/
+theorem convs_direct_of_kind (E : Env) (fuel : Nat) (uns : Bool) (types : List Ty) (t ty : Ty) (cs : Convs)
+    (i : Nat) (c : UConv) (h : unifyF E fuel uns types = .ok (some (t, cs))) (hi : types[i]? = some ty)
+    (hc : cs[i]? = some (some c)) (hk : ((isTupleTy ty && isListTy t) || (isObjectTy ty && isMapTy t)) = false)
+    (ht : t.isDyn = false) : slotOf E uns t ty = some (some c) := by
+  obtain ⟨c', hc', hrel⟩ := (unifyF_slots E fuel uns types t cs h).2 i ty hi
+  rw [hc] at hc'; simp only [Option.some.injEq] at hc'; subst hc'
+  rcases slotRel_plain_kind hk hrel with hd | ⟨_, hn⟩ | ⟨ht', _⟩
+  · exact hd
+  · simp at hn
+  · subst ht'; simp [Ty.isDyn] at ht
+
+/-- the conversion handed to a placeholder input by unifyAllAsDynamic yields DynamicVal,
+whose type is the unified type -/
+theorem convs_yield_unified_dynamic (E : Env) (fuel : Nat) (v : Value) :
+    applyU E fuel .constDyn v = .ok (Value.unknown .dyn) ∧ yieldsUnified .dyn (Value.unknown .dyn) = true :=
+  ⟨rfl, by decide⟩
+
+/-- the witness (safe mode, placeholder-free): `Unify([tuple(tuple(bool)), tuple(tuple(string)),
+list(list(string))])` is `list(list(string))`; the conversion returned for the first input
+is the closure composed by unifyTuplesAsList, whose second step is applied to the
+ORIGINAL tuple value: on `((true))` it returns `[[true]] : list(list(bool))` — a value of
+another type than the unified one. -/
+def yieldWitnessTys : List Ty := [.tuple [.tuple [.bool]], .tuple [.tuple [.string]], .list (.list .string)]
+def yieldWitnessV : Value := ⟨.tuple [.tuple [.bool]], .seq [.seq [.b true]]⟩
+def yieldWitnessConv : UConv :=
+  .thenOrig
+    (some (.plan (.wrap (.list (.tuple [.string]))
+      (.tupToList [.wrap (.tuple [.string]) (.tupToTup [.wrap .string .boolToStr])] false))))
+    (.plan (.wrap (.list (.list .string))
+      (.collToList (.list .string) (.wrap (.list .string) (.tupToList [.nil] false)))))
+
+theorem convs_yield_unified_counterexample :
+    (unifyF (Env.std Env.simple) 3 false yieldWitnessTys).map (fun o => o.map fun r => (r.1, r.2[0]?)) =
+      .ok (some (.list (.list .string), some (some yieldWitnessConv))) ∧
+    applyU (Env.std Env.simple) 8 yieldWitnessConv yieldWitnessV =
+      .ok ⟨.list (.list .bool), .seq [.seq [.b true]]⟩ ∧
+    yieldsUnified (.list (.list .string)) ⟨.list (.list .bool), .seq [.seq [.b true]]⟩ = false :=
+  ⟨rfl, rfl, by decide⟩
+
+theorem convsYieldUnified_false : ¬ ConvsYieldUnified := by
+  intro h
+  obtain ⟨h1, h2, _⟩ := convs_yield_unified_counterexample
+  cases hu : unifyF (Env.std Env.simple) 3 false yieldWitnessTys with
+  | ok o =>
+    rw [hu] at h1
+    cases o with
+    | none => simp [Res.map] at h1
+    | some r =>
+      obtain ⟨t, cs⟩ := r
+      simp only [Res.map, Option.map_some, Res.ok.injEq, Option.some.injEq, Prod.mk.injEq] at h1
+      obtain ⟨rfl, hc⟩ := h1
+      have := h (Env.std Env.simple) 3 8 false yieldWitnessTys _ cs 0 yieldWitnessConv yieldWitnessV _
+        (unifyLaws_std _) (by decide) (by decide) hu hc rfl (by decide) h2
+      simp at this
+  | err _ => rw [hu] at h1; simp [Res.map] at h1
+  | panic _ => rw [hu] at h1; simp [Res.map] at h1
+  | unmodelled => rw [hu] at h1; simp [Res.map] at h1
+
+/-! ## Safe conversions never fail on known values -/
+
+/-- Full statement of the clause "for placeholder-free inputs the conversion … never
+fails in safe mode": FALSE of the code — see `safe_convs_total_counterexample`. -/
+def SafeConvsTotal : Prop :=
+  ∀ (E : Env) (fuel fuel' : Nat) (types : List Ty) (t : Ty) (cs : Convs) (i : Nat) (c : UConv) (v : Value) (e : String),
+    UnifyLaws E → SetLaws E → (∀ ty ∈ types, plainTy ty = true) → plainTy t = true →
+    unify E fuel types = .ok (some (t, cs)) → cs[i]? = some (some c) → types[i]? = some v.ty →
+    Value.wt v = true → Payload.whollyKnown v.v = true → applyU E fuel' c v ≠ .err e
+
+/-- What holds: in safe mode a slot filled the direct way never reports an error and
+never panics on a well-formed value of its input type without unknown parts (nulls and
+marks allowed, any depth): the outcome is a value of the unified type, or the model's
+fuel ran out.  Reuse of C08.safe_total_partial. -/
+theorem safe_convs_total_partial (E : Env) (hU : UnifyLaws E) (hS : SetLaws E) (fuel fuel' : Nat) (types : List Ty)
+    (t : Ty) (cs : Convs) (i : Nat) (c : UConv) (v : Value) (ht : plainTy t = true)
+    (_h : unify E fuel types = .ok (some (t, cs))) (_hc : cs[i]? = some (some c))
+    (hd : slotOf E false t v.ty = some (some c)) (hv : Value.wt v = true)
+    (hk : Payload.whollyKnown v.v = true) :
+    (∃ r, applyU E fuel' c v = .ok r ∧ r.ty = t) ∨ applyU E fuel' c v = .unmodelled := by
+  simp only [plainTy, Bool.and_eq_true, Bool.not_eq_true'] at ht
+  obtain ⟨_, p, rfl, hg⟩ := direct_plan hd
+  have hp : RegularPair v t := ⟨hv, ht.1.1, ht.2⟩
+  have h := apply_NB hU hS fuel' hp hk hg
+  simp only [applyU]
+  cases hr : apply E fuel' p v with
+  | ok r => exact .inl ⟨r, rfl, by rw [apply_ty hU hp hg hr, stripOpt_id_of_noOpt t ht.1.2]⟩
+  | err c => exact absurd (h.2 c hr) (by simp)
+  | panic w => exact absurd hr (h.1 w)
+  | unmodelled => exact .inr rfl
+
+/-- the witness (safe mode, placeholder-free, known value): `Unify([tuple(tuple(bool),
+tuple(string)), list(list(string))])` is `list(list(string))`, and the conversion returned
+for the tuple fails on `((true), ("a"))` — "element types must all match for conversion
+to list" — because its second step converts the original elements `(true)` and `("a")`
+separately, to `list(bool)` and `list(string)`. -/
+def totalWitnessTys : List Ty := [.tuple [.tuple [.bool], .tuple [.string]], .list (.list .string)]
+def totalWitnessV : Value := ⟨.tuple [.tuple [.bool], .tuple [.string]], .seq [.seq [.b true], .seq [.s "a"]]⟩
+def totalWitnessConv : UConv :=
+  .thenOrig
+    (some (.plan (.wrap (.list (.tuple [.string]))
+      (.tupToList [.wrap (.tuple [.string]) (.tupToTup [.wrap .string .boolToStr]), .nil] false))))
+    (.plan (.wrap (.list (.list .string))
+      (.collToList (.list .string) (.wrap (.list .string) (.tupToList [.nil] false)))))
+
+theorem safe_convs_total_counterexample :
+    (unify (Env.std Env.simple) 3 totalWitnessTys).map (fun o => o.map fun r => (r.1, r.2[0]?)) =
+      .ok (some (.list (.list .string), some (some totalWitnessConv))) ∧
+    applyU (Env.std Env.simple) 8 totalWitnessConv totalWitnessV =
+      .err "element types must all match for conversion to list" :=
+  ⟨rfl, rfl⟩
+
+theorem safeConvsTotal_false : ¬ SafeConvsTotal := by
+  intro h
+  obtain ⟨h1, h2⟩ := safe_convs_total_counterexample
+  cases hu : unify (Env.std Env.simple) 3 totalWitnessTys with
+  | ok o =>
+    rw [hu] at h1
+    cases o with
+    | none => simp [Res.map] at h1
+    | some r =>
+      obtain ⟨t, cs⟩ := r
+      simp only [Res.map, Option.map_some, Res.ok.injEq, Option.some.injEq, Prod.mk.injEq] at h1
+      obtain ⟨rfl, hc⟩ := h1
+      exact h (Env.std Env.simple) 3 8 totalWitnessTys _ cs 0 totalWitnessConv totalWitnessV _
+        (unifyLaws_std _) setLaws_simple_std (by decide) (by decide) hu hc rfl (by decide) (by decide) h2
+  | err _ => rw [hu] at h1; simp [Res.map] at h1
+  | panic _ => rw [hu] at h1; simp [Res.map] at h1
+  | unmodelled => rw [hu] at h1; simp [Res.map] at h1
+
+/-- non-vacuity of the partial theorems: a direct slot, a regular value, an outcome -/
+example : slotOf (Env.std Env.simple) false (.list .string) (.tuple [.bool, .string]) =
+    some (some (.plan (.wrap (.list .string) (.tupToList [.wrap .string .boolToStr, .nil] false)))) := rfl
+example : applyU (Env.std Env.simple) 8 (.plan (.wrap (.list .string) (.tupToList [.wrap .string .boolToStr, .nil] false)))
+    ⟨.tuple [.bool, .string], .seq [.b true, .s "a"]⟩ = .ok ⟨.list .string, .seq [.s "true", .s "a"]⟩ := rfl
 
 end C09
 end CtyModel
